@@ -329,7 +329,12 @@ Proof.
     destruct (kassoc k); destruct (kvals k) as [v|]; simpl; auto.
     + rewrite !select_length by lia. reflexivity.
     + rewrite !select_length by lia. reflexivity.
-  - intros H. rewrite Eo in H. rewrite Ec, (Hp H), select_nil_r. reflexivity.
+  - intros H. rewrite Eo in H. destruct (Hp H) as [Hp1 Hp2]. split.
+    + rewrite Ec, Hp1, select_nil_r. reflexivity.
+    + apply Forall_forall. intros k' Hin. apply In_nth_error in Hin as [p Hp'].
+      destruct (Forall2_nth_r _ _ _ _ _ Hks Hp') as [k [Hkp (E1 & E2 & E3 & E4)]].
+      rewrite Forall_forall in Hp2. specialize (Hp2 k (nth_error_In _ _ Hkp)).
+      unfold not_cell in *. congruence.
 Qed.
 
 Theorem selection_vertex_count vm cm o o' : selection vm cm o o' -> length (verts o') = count vm.
@@ -635,7 +640,7 @@ Proof.
   destruct e; [discriminate|]. intros H; inversion H; subst.
   exists I'. split; [exact HN|].
   pose proof (rcv_done fl I I' AVertex (length (verts o)) (kids o) ks' (wf_kids_len_v o W) HN R) as HK.
-  destruct W as (Wc & Wk & Wp). specialize (Wp Hp).
+  destruct W as (Wc & Wk & Wp). destruct (Wp Hp) as [Wp' _]. clear Wp. rename Wp' into Wp.
   unfold selection, vmask. simpl. rewrite Wp. simpl.
   split; [apply keep_mask_length|]. split; [reflexivity|].
   split; [intros j c Hj; destruct j; discriminate|].
@@ -661,4 +666,358 @@ Proof.
   rewrite select_length by (rewrite keep_mask_length; reflexivity).
   destruct (rcv_total fl I I' AVertex (length (verts o)) (kids o) (wf_kids_len_v o W) HN HS) as [ks' Hr].
   rewrite Hr. unfold finish. simpl. discriminate.
+Qed.
+
+Lemma cell_rv_done fl o I o' : wf o -> cell_remove_vertices fl o I = Done o' ->
+  exists I', norm_all (length (verts o)) I = Some I' /\
+             selection (vmask o I') (cell_mask (vmask o I') (cells o)) o o'.
+Proof.
+  intros W. unfold cell_remove_vertices. cbv zeta.
+  destruct (check_max (length (verts o)) I); [|discriminate].
+  destruct (norm_all (length (verts o)) I) as [I'|] eqn:HN; [|discriminate].
+  unfold vmask. remember (keep_mask (length (verts o)) I') as m eqn:Em.
+  assert (Lm : length m = length (verts o)) by (subst m; apply keep_mask_length).
+  simpl. rewrite select_length by exact Lm.
+  destruct (rcv fl I AVertex (count m) (kids o)) as [ks1 e1] eqn:R1.
+  unfold finish; simpl. destruct e1; [discriminate|]. simpl.
+  assert (HK1 : Forall2 (rcv_kid m AVertex) (kids o) ks1).
+  { subst m. eapply rcv_done; eauto. apply wf_kids_len_v; exact W. }
+  rewrite cells_kept_wf by (rewrite Lm; apply W).
+  remember (cell_mask m (cells o)) as cm eqn:Ecm.
+  assert (Lcm : length cm = length (cells o)) by (subst cm; apply cell_mask_length).
+  assert (Hcl : closed m cm (cells o)) by (subst cm; apply cell_mask_closed).
+  assert (HL1 : kids_len ACell (length (cells o)) ks1).
+  { eapply rcv_kid_keeps_other; [|exact HK1|apply wf_kids_len_c; exact W]. discriminate. }
+  destruct (f_guard_cells fl && match where_false cm with [] => true | _ :: _ => false end) eqn:G.
+  - intros H; injection H as <-. simpl.
+    apply andb_true_iff in G as [_ G]. destruct (where_false cm) eqn:T; [|discriminate].
+    pose proof (where_false_nil cm T) as Call.
+    exists I'. split; [reflexivity|]. rewrite <- Em, <- Ecm.
+    unfold selection. simpl.
+    split; [exact Lm|]. split; [exact Lcm|]. split; [exact Hcl|].
+    split; [reflexivity|]. split; [reflexivity|]. split.
+    + rewrite (select_all_true cm (cells o)) by lia.
+      rewrite <- (select_all_true cm (cells o)) at 1 by lia.
+      rewrite <- (select_all_true cm (cells o)) at 2 by lia.
+      apply new_index_rank_sel; [exact Hcl|exact Lcm].
+    + clear R1. revert HL1. induction HK1 as [|k k1 r r1 Hk HK1 IH]; intros HL1; constructor.
+      * destruct Hk as (A1 & A2 & A3 & A4). unfold sel_kid. repeat split; auto.
+        rewrite A4. destruct (kassoc k) eqn:Ea; simpl; try reflexivity.
+        destruct (kvals k) as [v|] eqn:Ev; simpl; [|reflexivity].
+        f_equal. symmetry. apply select_all_true; [|lia].
+        rewrite Lcm. symmetry. apply (HL1 k1 v); [left; reflexivity|congruence|].
+        rewrite A4. simpl. reflexivity.
+      * apply IH. intros k0 v0 Hin. apply HL1. right. exact Hin.
+  - remember (set_kids (set_verts o (select m (verts o))) ks1) as o2 eqn:Eo2.
+    destruct (remove_cells fl o2 (map Z.of_nat (where_false cm))) as [o3|e3 o3] eqn:RC; [|discriminate].
+    intros H; injection H as <-.
+    apply remove_cells_done in RC; [|subst o2; exact HL1].
+    destruct RC as [T' [HT (E1 & E2 & E3 & HK2)]]. subst o2. simpl in *.
+    rewrite norm_all_of_nat in HT by (rewrite <- Lcm; apply where_false_lt).
+    injection HT as <-.
+    rewrite <- Lcm, keep_mask_where_false in E3, HK2.
+    exists I'. split; [reflexivity|]. rewrite <- Em, <- Ecm.
+    unfold selection. simpl.
+    split; [exact Lm|]. split; [exact Lcm|]. split; [exact Hcl|].
+    split; [exact E1|]. split; [exact E2|]. split.
+    + rewrite E3. apply new_index_rank_sel; [exact Hcl|exact Lcm].
+    + eapply rcv_compose; eauto.
+Qed.
+
+(* the removal indices hit at least one vertex used by a cell *)
+Definition touches (o : obj) (I : list Z) : Prop :=
+  forall I', norm_all (length (verts o)) I = Some I' -> exists c v, In c (cells o) /\ In v c /\ In v I'.
+
+Lemma touches_where_false o I I' : wf o -> norm_all (length (verts o)) I = Some I' -> touches o I ->
+  where_false (cell_mask (keep_mask (length (verts o)) I') (cells o)) <> [].
+Proof.
+  intros (Wc & _ & _) HN HT. destruct (HT I' HN) as [c [v [Hc [Hv Hi]]]].
+  apply In_nth_error in Hc as [j Hj].
+  assert (In j (where_false (cell_mask (keep_mask (length (verts o)) I') (cells o)))).
+  { apply where_false_spec. unfold cell_mask. rewrite nth_error_map, Hj. simpl. f_equal.
+    apply not_true_is_false. intros E. rewrite forallb_forall in E. specialize (E v Hv).
+    apply nth_nth_error_true in E.
+    rewrite Forall_forall in Wc. specialize (Wc c (nth_error_In _ _ Hj)).
+    unfold cell_ok in Wc. rewrite Forall_forall in Wc. specialize (Wc v Hv).
+    apply keep_mask_true in E as [_ E]. contradiction. }
+  intros E. rewrite E in H. contradiction.
+Qed.
+
+Definition valueless_safe (fl : flags) (o : obj) : Prop :=
+  f_skip_valueless fl = true \/ (valued AVertex (kids o) /\ valued ACell (kids o)).
+
+Lemma cell_rv_failed fl o I e o' : wf o -> valueless_safe fl o ->
+  (f_guard_cells fl = true \/ touches o I) ->
+  cell_remove_vertices fl o I = Failed e o' -> o' = o.
+Proof.
+  intros W HS HG. unfold cell_remove_vertices. cbv zeta.
+  destruct (check_max (length (verts o)) I); [|intros H; injection H as _ <-; reflexivity].
+  destruct (norm_all (length (verts o)) I) as [I'|] eqn:HN; [|intros H; injection H as _ <-; reflexivity].
+  remember (keep_mask (length (verts o)) I') as m eqn:Em.
+  assert (Lm : length m = length (verts o)) by (subst m; apply keep_mask_length).
+  simpl. rewrite select_length by exact Lm.
+  assert (HS1 : f_skip_valueless fl = true \/ valued AVertex (kids o)) by (destruct HS as [HS|[HS _]]; auto).
+  destruct (rcv_total fl I I' AVertex (length (verts o)) (kids o) (wf_kids_len_v o W) HN HS1) as [ks1 R1].
+  rewrite <- Em in R1. rewrite R1. unfold finish; simpl.
+  assert (HK1 : Forall2 (rcv_kid m AVertex) (kids o) ks1).
+  { subst m. eapply rcv_done; eauto. apply wf_kids_len_v; exact W. }
+  rewrite cells_kept_wf by (rewrite Lm; apply W).
+  remember (cell_mask m (cells o)) as cm eqn:Ecm.
+  assert (Lcm : length cm = length (cells o)) by (subst cm; apply cell_mask_length).
+  assert (HL1 : kids_len ACell (length (cells o)) ks1).
+  { eapply rcv_kid_keeps_other; [|exact HK1|apply wf_kids_len_c; exact W]. discriminate. }
+  assert (HS2 : f_skip_valueless fl = true \/ valued ACell ks1).
+  { destruct HS as [HS|[_ HS]]; [left; exact HS|right]. eapply rcv_kid_keeps_valued; eauto. }
+  destruct (f_guard_cells fl && match where_false cm with [] => true | _ :: _ => false end) eqn:G; [discriminate|].
+  assert (HT : where_false cm <> []).
+  { destruct HG as [HG|HG].
+    - rewrite HG in G. simpl in G. destruct (where_false cm); [discriminate|]. discriminate.
+    - subst cm m. apply (touches_where_false o I I'); assumption. }
+  remember (set_kids (set_verts o (select m (verts o))) ks1) as o2 eqn:Eo2.
+  destruct (remove_cells fl o2 (map Z.of_nat (where_false cm))) as [o3|e3 o3] eqn:RC; [discriminate|].
+  exfalso. unfold remove_cells in RC. subst o2. simpl in RC.
+  rewrite check_max_of_nat in RC by (auto; rewrite <- Lcm; apply where_false_lt).
+  unfold np_delete in RC. rewrite norm_all_of_nat in RC by (rewrite <- Lcm; apply where_false_lt).
+  rewrite <- Lcm, keep_mask_where_false in RC.
+  rewrite select_length in RC by exact Lcm.
+  destruct (rcv_total fl (map Z.of_nat (where_false cm)) (where_false cm) ACell (length (cells o)) ks1 HL1) as [ks2 R2]; auto.
+  { apply norm_all_of_nat. rewrite <- Lcm. apply where_false_lt. }
+  rewrite <- Lcm, keep_mask_where_false in R2. rewrite R2 in RC. unfold finish in RC. simpl in RC. discriminate.
+Qed.
+
+(* ================================================================== remove_vertices, both classes *)
+Lemma remove_vertices_done fl o I o' : wf o -> remove_vertices fl o I = Done o' ->
+  exists I', norm_all (length (verts o)) I = Some I' /\
+             selection (vmask o I') (cell_mask (vmask o I') (cells o)) o o'.
+Proof.
+  intros W. unfold remove_vertices. destruct (ok o) eqn:Ek.
+  - apply points_rv_done; assumption.
+  - apply cell_rv_done; assumption.
+  - apply cell_rv_done; assumption.
+Qed.
+
+Lemma remove_vertices_failed fl o I e o' : wf o -> valueless_safe fl o ->
+  (f_guard_cells fl = true \/ ok o = OPoints \/ touches o I) ->
+  remove_vertices fl o I = Failed e o' -> o' = o.
+Proof.
+  intros W HS HG. unfold remove_vertices. destruct (ok o) eqn:Ek.
+  - apply points_rv_failed; [exact W|]. destruct HS as [HS|[HS _]]; auto.
+  - apply cell_rv_failed; auto. destruct HG as [HG|[HG|HG]]; auto. discriminate.
+  - apply cell_rv_failed; auto. destruct HG as [HG|[HG|HG]]; auto. discriminate.
+Qed.
+
+(* ================================================================== masked copy *)
+Definition mask_or_all (om : option (list bool)) (n : nat) : list bool :=
+  match om with Some m => m | None => repeat true n end.
+
+Lemma fill_masked_all_true nd : forall m v, length m = length v -> count m = length m -> fill_masked nd m v = v.
+Proof.
+  induction m as [|b m IH]; intros [|x v] L C; simpl in *; try discriminate; try reflexivity.
+  pose proof (count_le_length m). destruct b; [|lia]. f_equal. apply IH; lia.
+Qed.
+
+Lemma data_copy_some n m k k' v : kvals k = Some v -> n = count m -> data_copy n (Some m) k = Ok k' ->
+  length m = length v /\ kid_id k' = kid_id k /\ kassoc k' = kassoc k /\ kkind k' = kkind k /\ kvals k' = Some (select m v).
+Proof.
+  intros Hv Hn. unfold data_copy. rewrite Hv.
+  destruct (Nat.eqb (length m) (length v)) eqn:E; simpl; [|discriminate].
+  apply Nat.eqb_eq in E.
+  assert (Hsel : (if n <? length v then select m v else fill_masked (ndv (kkind k)) m v) = select m v).
+  { destruct (n <? length v) eqn:E2; [reflexivity|]. apply Nat.ltb_ge in E2.
+    pose proof (count_le_length m).
+    rewrite fill_masked_all_true by lia. symmetry. apply select_all_true; lia. }
+  rewrite Hsel. rewrite format_length_eq by (rewrite select_length; lia).
+  intros H; injection H as <-. simpl. auto.
+Qed.
+
+Lemma data_copy_plain n om k k' : (kvals k = None \/ om = None) -> data_copy n om k = Ok k' ->
+  kid_id k' = kid_id k /\ kassoc k' = kassoc k /\ kkind k' = kkind k /\ kvals k' = kvals k.
+Proof.
+  intros H. unfold data_copy. destruct H as [H|H]; rewrite H.
+  - intros E; injection E as <-. simpl. auto.
+  - destruct (kvals k); intros E; injection E as <-; simpl; auto.
+Qed.
+
+Lemma select_repeat_true {A} (v : list A) n : length v = n -> select (repeat true n) v = v.
+Proof. intros H. apply select_all_true; rewrite ?count_repeat_true, repeat_length; auto. Qed.
+
+Lemma copy_kids_sel Nv Nc nv nc ovm ocm : forall ks ks',
+  kids_len AVertex Nv ks -> kids_len ACell Nc ks ->
+  nv = count (mask_or_all ovm Nv) ->
+  (Forall not_cell ks \/ nc = count (mask_or_all ocm Nc)) ->
+  copy_kids nv nc ovm ocm ks = Ok ks' ->
+  Forall2 (sel_kid (mask_or_all ovm Nv) (mask_or_all ocm Nc)) ks ks'.
+Proof.
+  induction ks as [|k r IH]; intros ks' HLv HLc Hnv Hnc H; simpl in H.
+  - injection H as <-. constructor.
+  - assert (HLv' : kids_len AVertex Nv r) by (intros k0 v0 Hin; apply HLv; right; exact Hin).
+    assert (HLc' : kids_len ACell Nc r) by (intros k0 v0 Hin; apply HLc; right; exact Hin).
+    assert (Hnc' : Forall not_cell r \/ nc = count (mask_or_all ocm Nc)).
+    { destruct Hnc as [Hnc|Hnc]; [left; inversion Hnc; assumption|right; exact Hnc]. }
+    destruct (data_copy _ _ k) as [k'|] eqn:D; [|discriminate].
+    destruct (copy_kids nv nc ovm ocm r) as [r'|] eqn:C; [|discriminate].
+    injection H as <-. constructor; [|apply IH; auto].
+    unfold sel_kid.
+    destruct (kassoc k) eqn:Ea.
+    + destruct (kvals k) as [v|] eqn:Ev.
+      * destruct ovm as [m|].
+        -- destruct (data_copy_some _ m k k' v Ev Hnv D) as (L & A1 & A2 & A3 & A4). rewrite Ea in A2. simpl. auto.
+        -- destruct (data_copy_plain _ None k k' (or_intror eq_refl) D) as (A1 & A2 & A3 & A4).
+           rewrite Ea in A2. repeat split; auto. rewrite A4, Ev. simpl. rewrite select_repeat_true; [reflexivity|].
+           apply (HLv k v); [left; reflexivity|exact Ea|exact Ev].
+      * destruct (data_copy_plain _ ovm k k' (or_introl Ev) D) as (A1 & A2 & A3 & A4).
+        rewrite Ea in A2. repeat split; auto.
+    + destruct Hnc as [Hnc|Hnc]; [inversion Hnc; subst; unfold not_cell in *; congruence|].
+      destruct (kvals k) as [v|] eqn:Ev.
+      * destruct ocm as [m|].
+        -- destruct (data_copy_some _ m k k' v Ev Hnc D) as (L & A1 & A2 & A3 & A4). rewrite Ea in A2. simpl. auto.
+        -- destruct (data_copy_plain _ None k k' (or_intror eq_refl) D) as (A1 & A2 & A3 & A4).
+           rewrite Ea in A2. repeat split; auto. rewrite A4, Ev. simpl. rewrite select_repeat_true; [reflexivity|].
+           apply (HLc k v); [left; reflexivity|exact Ea|exact Ev].
+      * destruct (data_copy_plain _ ocm k k' (or_introl Ev) D) as (A1 & A2 & A3 & A4).
+        rewrite Ea in A2. repeat split; auto.
+    + destruct (data_copy_plain _ None k k' (or_intror eq_refl) D) as (A1 & A2 & A3 & A4).
+      rewrite Ea in A2. repeat split; auto.
+Qed.
+
+Lemma sel_kid_no_cell vm cm1 cm2 ks ks' :
+  Forall not_cell ks -> Forall2 (sel_kid vm cm1) ks ks' -> Forall2 (sel_kid vm cm2) ks ks'.
+Proof.
+  intros Hn H. induction H as [|k k' r r' Hk H IH]; constructor.
+  - inversion Hn; subst. destruct Hk as (A1 & A2 & A3 & A4). unfold sel_kid. repeat split; auto.
+    rewrite A4. unfold not_cell in *. destruct (kassoc k); try reflexivity. congruence.
+  - apply IH. inversion Hn; assumption.
+Qed.
+
+Lemma cell_mask_all_true n cs : Forall (cell_ok n) cs -> cell_mask (repeat true n) cs = repeat true (length cs).
+Proof.
+  induction cs as [|c r IH]; intros H; simpl; [reflexivity|]. inversion H; subst. rewrite IH by assumption. f_equal.
+  apply forallb_forall. intros v Hv. unfold cell_ok in H2. rewrite Forall_forall in H2. specialize (H2 v Hv).
+  apply nth_nth_error_true. apply nth_error_repeat. exact H2.
+Qed.
+
+Lemma closed_all_true n cm cs : Forall (cell_ok n) cs -> closed (repeat true n) cm cs.
+Proof.
+  intros H j c _ Hc. rewrite Forall_forall in H. specialize (H c (nth_error_In _ _ Hc)).
+  unfold cell_ok in H. apply Forall_forall. intros v Hv. rewrite Forall_forall in H. apply nth_error_repeat. apply H. exact Hv.
+Qed.
+
+Lemma rank_all_true_cells n cs : Forall (cell_ok n) cs -> map (map (rank (repeat true n))) cs = cs.
+Proof.
+  intros H. rewrite <- (map_id cs) at 2. apply map_ext_in. intros c Hc.
+  rewrite <- (map_id c) at 2. apply map_ext_in. intros v Hv.
+  rewrite Forall_forall in H. specialize (H c Hc). unfold cell_ok in H. rewrite Forall_forall in H. specialize (H v Hv).
+  apply rank_repeat_true. lia.
+Qed.
+
+Lemma Forall_select {A} (P : A -> Prop) : forall m l, Forall P l -> Forall P (select m l).
+Proof.
+  intros m l H. apply Forall_forall. intros x Hx. apply select_In in Hx. rewrite Forall_forall in H. auto.
+Qed.
+
+Definition copy_cmask (o : obj) (vm : list bool) (ocm : option (list bool)) : list bool :=
+  match ocm with Some c => c | None => cell_mask vm (cells o) end.
+
+Lemma masked_copy_done o ovm ocm o' : wf o -> (ovm = None \/ ocm = None) -> (ok o = OPoints -> ocm = None) ->
+  masked_copy o ovm ocm = Done o' ->
+  selection (mask_or_all ovm (length (verts o))) (copy_cmask o (mask_or_all ovm (length (verts o))) ocm) o o'.
+Proof.
+  intros W Hex Hpt. pose proof W as (Wc & Wk & Wp).
+  pose proof (wf_kids_len_v o W) as HLv. pose proof (wf_kids_len_c o W) as HLc.
+  unfold masked_copy. destruct (ok o) eqn:Ek.
+  - (* Points *)
+    rewrite (Hpt eq_refl). destruct (Wp eq_refl) as [Wp1 Wp2]. unfold copy_cmask. rewrite Wp1. simpl cell_mask.
+    destruct ovm as [m|]; simpl mask_or_all.
+    + destruct (Nat.eqb (length m) (length (verts o))) eqn:E; simpl; [|discriminate]. apply Nat.eqb_eq in E.
+      destruct (copy_kids _ 0 (Some m) (Some m) (kids o)) as [ks|] eqn:C; [|discriminate].
+      intros H; injection H as <-. unfold selection. simpl. rewrite Wp1.
+      split; [exact E|]. split; [reflexivity|]. split; [intros j c Hj; destruct j; discriminate|].
+      split; [exact Ek|]. split; [reflexivity|]. split; [rewrite select_nil_r; reflexivity|].
+      apply (sel_kid_no_cell m m []); [exact Wp2|].
+      apply (copy_kids_sel (length (verts o)) (length (cells o)) _ 0 (Some m) (Some m)); auto.
+      simpl. apply select_length. exact E.
+    + destruct (copy_kids _ 0 None None (kids o)) as [ks|] eqn:C; [|discriminate].
+      intros H; injection H as <-. unfold selection. simpl. rewrite Wp1.
+      split; [apply repeat_length|]. split; [reflexivity|]. split; [intros j c Hj; destruct j; discriminate|].
+      split; [reflexivity|]. split; [rewrite select_repeat_true; reflexivity|]. split; [reflexivity|].
+      apply (sel_kid_no_cell _ (mask_or_all None (length (cells o))) []); [exact Wp2|].
+      apply (copy_kids_sel (length (verts o)) (length (cells o)) _ 0 None None); auto.
+      simpl. rewrite count_repeat_true. reflexivity.
+  - (* Curve *)
+    destruct ovm as [m|]; simpl mask_or_all.
+    + destruct Hex as [Hex|Hex]; [discriminate|]. subst ocm. unfold copy_cmask.
+      destruct (Nat.eqb (length m) (length (verts o))) eqn:E; simpl; [|discriminate]. apply Nat.eqb_eq in E.
+      rewrite cells_kept_wf by (rewrite E; exact Wc).
+      rewrite cell_mask_length, Nat.eqb_refl. simpl.
+      destruct (copy_kids _ _ (Some m) (Some (cell_mask m (cells o))) (kids o)) as [ks|] eqn:C; [|discriminate].
+      intros H; injection H as <-. unfold selection. simpl.
+      split; [exact E|]. split; [apply cell_mask_length|]. split; [apply cell_mask_closed|].
+      split; [exact Ek|]. split; [reflexivity|]. split.
+      * rewrite select_map. change (new_id m) with (new_index m).
+        apply new_index_rank_sel; [apply cell_mask_closed|apply cell_mask_length].
+      * apply (copy_kids_sel (length (verts o)) (length (cells o)) _ _ (Some m) (Some (cell_mask m (cells o)))) in C; auto.
+        -- simpl. apply select_length. exact E.
+        -- right. simpl. apply select_length. rewrite map_length. apply cell_mask_length.
+    + destruct ocm as [c|]; unfold copy_cmask.
+      * destruct (Nat.eqb (length c) (length (cells o))) eqn:E; simpl; [|discriminate]. apply Nat.eqb_eq in E.
+        destruct (copy_kids _ _ None (Some c) (kids o)) as [ks|] eqn:C; [|discriminate].
+        intros H; injection H as <-. unfold selection. simpl.
+        split; [apply repeat_length|]. split; [exact E|]. split; [apply closed_all_true; exact Wc|].
+        split; [exact Ek|]. split; [rewrite select_repeat_true; reflexivity|]. split.
+        -- rewrite rank_all_true_cells; [reflexivity|]. apply Forall_select. exact Wc.
+        -- apply (copy_kids_sel (length (verts o)) (length (cells o)) _ _ None (Some c)) in C; auto.
+           ++ simpl. rewrite count_repeat_true. reflexivity.
+           ++ right. simpl. apply select_length. exact E.
+      * destruct (copy_kids _ _ None None (kids o)) as [ks|] eqn:C; [|discriminate].
+        intros H; injection H as <-. unfold selection. simpl.
+        rewrite cell_mask_all_true by exact Wc.
+        split; [apply repeat_length|]. split; [apply repeat_length|]. split; [apply closed_all_true; exact Wc|].
+        split; [reflexivity|]. split; [rewrite select_repeat_true; reflexivity|]. split.
+        -- rewrite select_repeat_true by reflexivity. rewrite rank_all_true_cells; [reflexivity|exact Wc].
+        -- apply (copy_kids_sel (length (verts o)) (length (cells o)) _ _ None None) in C; auto.
+           ++ simpl. rewrite count_repeat_true. reflexivity.
+           ++ right. simpl. rewrite count_repeat_true. reflexivity.
+  - (* Surface: same code path *)
+    destruct ovm as [m|]; simpl mask_or_all.
+    + destruct Hex as [Hex|Hex]; [discriminate|]. subst ocm. unfold copy_cmask.
+      destruct (Nat.eqb (length m) (length (verts o))) eqn:E; simpl; [|discriminate]. apply Nat.eqb_eq in E.
+      rewrite cells_kept_wf by (rewrite E; exact Wc).
+      rewrite cell_mask_length, Nat.eqb_refl. simpl.
+      destruct (copy_kids _ _ (Some m) (Some (cell_mask m (cells o))) (kids o)) as [ks|] eqn:C; [|discriminate].
+      intros H; injection H as <-. unfold selection. simpl.
+      split; [exact E|]. split; [apply cell_mask_length|]. split; [apply cell_mask_closed|].
+      split; [exact Ek|]. split; [reflexivity|]. split.
+      * rewrite select_map. change (new_id m) with (new_index m).
+        apply new_index_rank_sel; [apply cell_mask_closed|apply cell_mask_length].
+      * apply (copy_kids_sel (length (verts o)) (length (cells o)) _ _ (Some m) (Some (cell_mask m (cells o)))) in C; auto.
+        -- simpl. apply select_length. exact E.
+        -- right. simpl. apply select_length. rewrite map_length. apply cell_mask_length.
+    + destruct ocm as [c|]; unfold copy_cmask.
+      * destruct (Nat.eqb (length c) (length (cells o))) eqn:E; simpl; [|discriminate]. apply Nat.eqb_eq in E.
+        destruct (copy_kids _ _ None (Some c) (kids o)) as [ks|] eqn:C; [|discriminate].
+        intros H; injection H as <-. unfold selection. simpl.
+        split; [apply repeat_length|]. split; [exact E|]. split; [apply closed_all_true; exact Wc|].
+        split; [exact Ek|]. split; [rewrite select_repeat_true; reflexivity|]. split.
+        -- rewrite rank_all_true_cells; [reflexivity|]. apply Forall_select. exact Wc.
+        -- apply (copy_kids_sel (length (verts o)) (length (cells o)) _ _ None (Some c)) in C; auto.
+           ++ simpl. rewrite count_repeat_true. reflexivity.
+           ++ right. simpl. apply select_length. exact E.
+      * destruct (copy_kids _ _ None None (kids o)) as [ks|] eqn:C; [|discriminate].
+        intros H; injection H as <-. unfold selection. simpl.
+        rewrite cell_mask_all_true by exact Wc.
+        split; [apply repeat_length|]. split; [apply repeat_length|]. split; [apply closed_all_true; exact Wc|].
+        split; [reflexivity|]. split; [rewrite select_repeat_true; reflexivity|]. split.
+        -- rewrite select_repeat_true by reflexivity. rewrite rank_all_true_cells; [reflexivity|exact Wc].
+        -- apply (copy_kids_sel (length (verts o)) (length (cells o)) _ _ None None) in C; auto.
+           ++ simpl. rewrite count_repeat_true. reflexivity.
+           ++ right. simpl. rewrite count_repeat_true. reflexivity.
+Qed.
+
+Lemma masked_copy_failed o ovm ocm e o' : masked_copy o ovm ocm = Failed e o' -> o' = o.
+Proof.
+  unfold masked_copy.
+  repeat match goal with
+         | |- context [match ?x with _ => _ end] => destruct x
+         | |- context [if ?x then _ else _] => destruct x
+         end; intros H; try discriminate; injection H as _ <-; reflexivity.
 Qed.
